@@ -47,10 +47,12 @@ def sdv__str(glob_pattern: StringSdv) -> MatcherSdv[str]:
 
 
 def _match_path(model: Path, pattern: str) -> bool:
-    if not pattern:
-        # pathlib does not accept the empty pattern - it matches no path (as it matches no name)
+    try:
+        return model.match(pattern)
+    except ValueError:
+        # pathlib does not accept a pattern without any name in it (the empty pattern, '.', './') -
+        # it matches no path (as it matches no name)
         return False
-    return model.match(pattern)
 
 
 def _match_str(model: str, pattern: str) -> bool:
